@@ -163,6 +163,15 @@ class TdfType(Generic[X]):
         "Return the size in bytes of n items of the type"
         return n * self.btype.itemsize
 
+    def check_channel(self, channel) -> None:
+        """Refuse a channel number that this (integer) type cannot hold: it
+        would be stored as another channel."""
+        info = np.iinfo(self.btype)
+        if not info.min <= channel <= info.max:
+            raise ValueError(
+                f"Channel {channel} out of range ({info.min} to {info.max})"
+            )
+
     def free_channel(self, used) -> int:
         """The channel an item gets when none is given: one above the highest
         channel in use while that still fits this (integer) type, else the
